@@ -171,6 +171,26 @@ Proof.
   rewrite <- rsum_scal. apply rsum_ext; intros. ring.
 Qed.
 
+(** * Chain-rule algebra of the source term *)
+(** the algebra behind "source = - Liouville[f_eq]" (uses only w^2 = 1 - v^2) *)
+Lemma source_algebra w E T0 v0 pz vw gw m' T' v' dfe dchidxi dpzdrz :
+  w * w = 1 - v0 * v0 -> w <> 0 -> E <> 0 -> T0 <> 0 -> dpzdrz <> 0 ->
+  let ga := 1 / w in
+  let Pw := gw * (pz - vw * E) in
+  let Ppl := ga * (pz - v0 * E) in
+  let Ep := ga * (E - v0 * pz) in
+  let Dx := ((v0 * v' / (w * w * w)) * (E - v0 * pz) + (1 / w) * (m' / (2 * E) - v' * pz)) / T0
+            - Ep * T' / (T0 * T0) in
+  let Dp := (1 / w) * (pz / E - v0) / T0 in
+  dfe / T0 * dchidxi * (Pw * Ppl * ga ^ 2 * v' + Pw * Ep * T' / T0 + 1 / 2 * m' * (gw * ga * (vw - v0)))
+  = - (dchidxi * Pw * (dfe * Dx) - dchidxi * (1 / dpzdrz) * (gw / 2) * m' * (dfe * Dp * dpzdrz)).
+Proof.
+  intros Hw Hw0 HE HT Hd. cbv zeta.
+  field_simplify_eq; [|repeat split; assumption].
+  assert (H2 : w ^ 2 = 1 - v0 ^ 2) by (replace (w ^ 2) with (w * w) by ring; rewrite Hw; ring).
+  rewrite !H2. ring.
+Qed.
+
 (** * AST facts about the two derivative branches *)
 Inductive dmode := Spectral | FiniteDiff.
 Inductive dtarget := DT | DV | DM.       (* dTemperaturedChi, dvdChi, dMsqdChi *)
